@@ -13,7 +13,7 @@ Section U.
     good_key pk sk ->
     Forall (fun a => Z.gcd a (pk_N pk) = 1) bases ->
     forallb (msg_in_range CS) msgs = true -> (length msgs <= length bases)%nat ->
-    0 <= c_rand C -> 0 <= bs_rprime b -> two (le CS - 1) < bs_e b ->
+    0 <= c_rand C -> 0 <= bs_rprime b -> two (le CS - 1) < bs_e b < two (le CS) ->
     (match revealed, ridx with
      | Some rm, Some _ => extend_commitment_with_pk C rm pk bases ridx
      | _, _ => Ok C
@@ -50,7 +50,7 @@ Section U.
     rewrite Hlhs. cbn [bind].
     destruct (prod_pows_total (pk_N pk) HN0 bases msgs 1 Hmn Hlen) as [r0 Hr0]. rewrite Hr0. cbn [bind].
     rewrite pow_mod_nonneg by lia. cbn [bind].
-    destruct (Z.leb_spec e (two (le CS - 1))); [lia|].
+    destruct (Z.leb_spec e (two (le CS - 1))); [lia|]. destruct (Z.leb_spec (two (le CS)) e); [lia|]. cbn [orb].
     apply (prod_pows_PP (pk_N pk) HN0) in Hr0 as [Hr00 Hr0e]; [|assumption|lia].
     f_equal. apply Z.eqb_eq.
     rewrite rem_mod_nonneg by first [lia | repeat apply Z.mul_nonneg_nonneg; try lia; apply Z.mod_pos_bound; lia].
